@@ -821,6 +821,16 @@ def forward_substitute(fn):
                     all_uses = [n.id for n in _own_nodes(fn) if isinstance(n, ast.Name) and isinstance(n.ctx, ast.Load) and n.id in names]
                     if order != names or sorted(all_uses) != sorted(names):
                         continue
+                    # the use must be evaluated exactly once: not inside a comprehension / lambda of the using statement
+                    # (a generator bound once and consumed across iterations is not a generator created per iteration)
+                    multi = False
+                    for root in scope_nodes:
+                        for n in ast.walk(root):
+                            if isinstance(n, (ast.ListComp, ast.SetComp, ast.DictComp, ast.GeneratorExp, ast.Lambda)):
+                                if any(isinstance(x, ast.Name) and x.id in names and isinstance(x.ctx, ast.Load) for x in ast.walk(n)):
+                                    multi = True
+                    if multi:
+                        continue
                     # nothing with an effect may be evaluated by the user before the last substituted name
                     ok = True
                     seen = 0
